@@ -382,6 +382,8 @@ fn amb_probes() -> Vec<(&'static str, String, String, bool)> {
     v.push(("TimeClockType", format!("v1 s{}", hexs("system")), s, rt));
     let (s, rt) = one(qevent::TimeEpoch::RFC3339DateTime(String::from("Unknow").into()));
     v.push(("TimeEpoch", format!("v1 s{}", hexs("Unknow")), s, rt));
+    let (s, rt) = one(qevent::legacy::quic::StreamDataLocation::Other("user".to_owned()));
+    v.push(("legacy::quic::StreamDataLocation", format!("v1 s{}", hexs("user")), s, rt));
     // ReferenceTime: the builder accepts clock_type = monotonic with the default epoch, `try_from` validation rejects it on read
     let mut b = qevent::ReferenceTime::builder();
     b.clock_type(qevent::TimeClockType::Monotaonic);
